@@ -642,6 +642,42 @@ def c12_refine(w):
     return None
 
 
+def _c12_configs(prop, res, workdir):
+    """The attack tables are filled once at process start; a fill that depends on the scheduler
+    configuration (GOMAXPROCS, number of CPUs) would be invisible to a single process. Re-run the
+    implementation side of stream c12 in fresh processes under other GOMAXPROCS values and require the
+    same answers as the run the model and the judge have seen."""
+    prefix = os.path.join(workdir, "c12")
+    if not os.path.exists(prefix + ".in"):
+        return
+    ins, impl, desc = (V.read_lines(prefix + s) for s in (".in", ".impl", ".desc"))
+    if res.tier == "quick":
+        idx = list(range(0, len(ins), max(1, len(ins) // 1500)))   # a spread sample incl. every kind
+    else:
+        idx = list(range(len(ins)))
+    sample = "\n".join(ins[i] for i in idx) + "\n"
+    cpus = os.cpu_count() or 1
+    tried = []
+    for g in sorted(set([1, 2, 3, 5, 6, 7, 12, max(1, cpus - 1), cpus + 1])):
+        env = dict(V.ENV, GOMAXPROCS=str(g))
+        rc, out = V.sh([os.path.join(V.BIN, "h"), "run", "c12"], cwd=V.BUILD, inp=sample, env=env, timeout=1800)
+        got = out.split("\n")
+        tried.append(g)
+        for k, i in enumerate(idx):
+            if k >= len(got) or got[k].split() != impl[i].split():
+                w = {"stream": "c12", "input": ins[i], "desc": f"GOMAXPROCS={g}: " + (desc[i] if i < len(desc) else ""),
+                     "impl_output": got[k] if k < len(got) else "", "impl_output_default_config": impl[i],
+                     "verdict": "0 20 (answer depends on GOMAXPROCS)",
+                     "replay_hint": f"echo '{ins[i][:200]}...' | GOMAXPROCS={g} build/bin/h run c12"}
+                res.add_violation("witness", w, True)
+                res.notes.append(f"c12: answers under GOMAXPROCS={g} differ from the default configuration")
+                return
+        res.evaluations += len(idx)
+    res.notes.append(f"c12 implementation side repeated in fresh processes under GOMAXPROCS {tried} (host has {cpus} CPUs): "
+                     f"{len(idx)} cases each, identical answers")
+
+
+
 reg(Prop("C12", "Attack tables equal ray-walking geometry for every square and occupancy", "Properties/C12.v",
          [StreamCfg("c12", 13000, 1000000, judge="judge_c12",
                     rule="both tiers: EVERY subset of every relevant-occupancy mask of every square (107 648 lookups, own "
@@ -657,7 +693,7 @@ reg(Prop("C12", "Attack tables equal ray-walking geometry for every square and o
                   "are translated"],
          assumptions=["squares are 0..63 (anything else is an index out of range in Go)",
                       "pawn sets are 64-bit bitboards (b < 2^64); slider occupancies are arbitrary"],
-         classify=c12_refine,
+         classify=c12_refine, extra=_c12_configs,
          design_ref="5/C12"))
 
 # ------------------------------------------------------------------------------------------------
